@@ -17,6 +17,12 @@ import (
 
 // C06 directed: an ordinal that is scaled in (slot) and later scaled out again gets the same claim objects back.
 func claimHistory(pol asv1.PodManagementPolicyType, name string, k int) func(*fam) {
+	return claimHistoryX(pol, name, k, false)
+}
+
+// claimHistoryX with lost=true: while the ordinal is scaled in, somebody deletes one of its claims; on
+// scale-out the claim has to be created afresh before the pod (the per-reconcile monitor judges that).
+func claimHistoryX(pol asv1.PodManagementPolicyType, name string, k int, lost bool) func(*fam) {
 	return func(f *fam) {
 		w, r := f.w, f.r
 		r.Sets = []string{name}
@@ -43,6 +49,13 @@ func claimHistory(pol asv1.PodManagementPolicyType, name string, k int) func(*fa
 			return
 		}
 		mid := uids()
+		lostClaim := fmt.Sprintf("data-%s-%d", name, k)
+		if lost {
+			w.Srv.Remove(simapi.PVCs, world.NS, lostClaim)
+			w.DeliverAll()
+			r.Trace = append(r.Trace, "somebody deletes claim "+lostClaim)
+			f.st.Inc("claim_history_scenarios_with_lost_claim")
+		}
 		w.EditSet(name, func(s *asv1.StatefulSet) { world.SetSlots(s, nil) })
 		r.Trace = append(r.Trace, fmt.Sprintf("user: slot %d out", k))
 		if cr := r.Calm(1); !cr.Converged {
@@ -52,6 +65,12 @@ func claimHistory(pol asv1.PodManagementPolicyType, name string, k int) func(*fa
 		after := uids()
 		f.st.Inc("claim_history_scenarios")
 		for n, u := range before {
+			if lost && n == lostClaim {
+				if after[n] == "" {
+					f.report(mon.V("C06", "history-claim-not-recreated", "claim %s was deleted while its ordinal was scaled in and did not come back with the pod", n))
+				}
+				continue
+			}
 			if mid[n] != u || after[n] != u {
 				f.report(mon.V("C06", "claim-identity-changed", "claim %s had uid %s, after scale-in %q, after scale-out %q", n, u, mid[n], after[n]))
 			}
@@ -69,7 +88,7 @@ func claimHistory(pol asv1.PodManagementPolicyType, name string, k int) func(*fa
 					found = true
 				}
 			}
-			if !found || before[want] == "" {
+			if !found || before[want] == "" || after[want] == "" {
 				f.report(mon.V("C06", "history-claim-not-rebound", "pod %s-%d came back without its original claim %s", name, k, want))
 			}
 		}
@@ -269,6 +288,7 @@ func init() {
 	directedC06 = []func(*fam){
 		claimHistory(asv1.OrderedReadyPodManagement, "web", 1), claimHistory(asv1.ParallelPodManagement, "web", 0),
 		claimHistory(asv1.OrderedReadyPodManagement, "db-1", 2), claimHistory(asv1.ParallelPodManagement, "a-0", 1),
+		claimHistoryX(asv1.OrderedReadyPodManagement, "web", 1, true), claimHistoryX(asv1.ParallelPodManagement, "web", 2, true),
 		claimFaults("500"), claimFaults("exists"), claimFaults("timeout"),
 	}
 	directedC08 = []func(*fam){collisionScenario(false), collisionScenario(true),
